@@ -225,6 +225,17 @@ def leg_a(ctx, rng, pool):
         for t in targets:
             add("reshape", ["v_reshape", list(shp), t], impl_verdict(lambda x=x, t=t: [int(v) for v in x.reshape(tuple(t)).shape]))
             add("reshape:numpy", ["np_reshape_ok", list(shp), t], {"ok": np_ok(lambda d=d, t=t: d.reshape(tuple(t)))})
+    # ... and on logical sizes above 2**53 that are not float64 values (the model divides in unbounded integers: `self.size // known`, not
+    # `int(self.size / known)`); empty arrays of astronomically large shapes, NumPy cannot be asked
+    for shp in [(1000003, 999983, 1000033), (2000000011, 1999999973), (3, 1000003, 999983, 1000033), (10**6, 10**6, 10**6)]:
+        x = sparse.COO(np.zeros((len(shp), 0), dtype=np.int64), np.zeros(0, dtype=np.int64), shape=shp)
+        n_ = 1
+        for d_ in shp:
+            n_ *= d_
+        big_targets = [[-1], [n_], [n_ + 1], [n_ - 1], [-1, shp[-1]], [shp[0], -1], [-1, 1], [1, -1, 1], [-1, -1], [-1, 0], [shp[-1], -1, shp[0]], [-1, 2], [-1, 7],
+                       [n_ // shp[0] + 1, -1], list(shp[::-1]), [-1, shp[0] * shp[1]]]
+        for t in big_targets:
+            add("reshape:huge", ["v_reshape", list(shp), t], impl_verdict(lambda x=x, t=t: [int(v) for v in x.reshape(tuple(t)).shape]))
     # COO.__init__: lengths and ranks
     shp_opts = [None, [], [2], [2, 2], [0], [2, 0], [-1], [2, -1], [1, 1, 1]]
     for rows, cols, dn, n in itertools.product(range(0, 4), range(0, 4), [0, 1, 2], range(0, 4)):
@@ -520,7 +531,7 @@ def run(ctx):
         pool.close()
     ctx.cov["rule"] = (
         "leg A: exhaustive grids (axis in [-9,9] x ndim<=6; index in [-12,12] x dim<=8; index arrays of length<=3; all pairs of shapes of rank<=2(3) over "
-        "extents {0,1,2,3}; all axis tuples of length<=3; all reshape targets of length<=3 over {-1,0,1,2,3,4,6} on 11 shapes; constructor "
+        "extents {0,1,2,3}; all axis tuples of length<=3; all reshape targets of length<=3 over {-1,0,1,2,3,4,6} on 11 shapes, 16 targets on four empty arrays of logical size > 2**53; constructor "
         "(rows,cols,data rank,length,shape) box; compressed_axes lists of length<=3) and seeded random sorted rows for the slicing kernel, model vs "
         "implementation on error class and accepted value.  Leg C: seeded malformed-argument stream over every operation of the table (rank 0-3, extents "
         "{0,1,2,3}, COO/GCXS(every compressed_axes)/DOK), thorough adds exhaustive small-shape enumerations for reductions, reshape, transpose, getitem and "
